@@ -10,6 +10,23 @@
 
 extern void (*g_event_cb)(int, int, long, long);
 
+// ---- failpoint: one array allocation of exactly g_fail_new_min bytes fails with std::bad_alloc (armed per operation) --
+#include <new>
+static size_t g_fail_new_min = 0;
+static int g_fail_new_fired = 0;
+void *operator new[](size_t n) {
+  if (g_fail_new_min && n == g_fail_new_min) {
+    g_fail_new_min = 0;
+    g_fail_new_fired++;
+    throw std::bad_alloc();
+  }
+  void *p = malloc(n ? n : 1);
+  if (!p) throw std::bad_alloc();
+  return p;
+}
+void operator delete[](void *p) noexcept { free(p); }
+void operator delete[](void *p, size_t) noexcept { free(p); }
+
 namespace {
 struct Op {
   int kind;
@@ -29,8 +46,8 @@ struct Res {
   int32_t stale;    // a buffer group was set up with turn != 0 or over != false
 };
 const char *KN[] = {"enc", "dec-genuine", "ver-genuine", "dec-wrongkey", "ver-wrongkey", "dec-tampered", "dec-truncated",
-                    "dec-garbage", "dec-empty", "cli-enc", "cli-dec", "cli-ver", "cli-parse-fail", "enc-echo", "dec-boundary", "dec-badmode"};
-const int NK = 16;
+                    "dec-garbage", "dec-empty", "cli-enc", "cli-dec", "cli-ver", "cli-parse-fail", "enc-echo", "dec-boundary", "dec-badmode", "enc-allocfail"};
+const int NK = 17;
 
 int g_stale = 0;
 void ev(int kind, int id, long a, long b) {
@@ -57,6 +74,9 @@ Op make_op(vh::Rng &r, int kind, const std::string &dir, int serial) {
   o.infile = dir + "/in" + std::to_string(serial);
   o.outfile = dir + "/out" + std::to_string(serial);
   switch (kind) {
+  case 16: // encryption whose chunk-buffer allocation fails (out of memory); the caller catches and carries on
+    o.T = o.ep.T = 2 + (int)r.below(15);
+    // fallthrough
   case 0: case 13:
     o.ep.cmode = (int)r.below(5); o.ep.hmode = (int)r.below(3);
     r.fill(o.ep.key, 16);
@@ -159,13 +179,35 @@ Res exec_op(const Op &o) {
   bytes out;
   if (o.argv.empty()) {
     ops::Result x;
-    if (o.kind == 0 || o.kind == 13) {
+    if (o.kind == 16) {
+      vh::MemFile in, out;
+      in.data = o.P;
+      FILE *fi = in.open("r+"), *fo = out.open("w+");
+      uint8_t key[16];
+      memcpy(key, o.ep.key, 16);
+      bytes seed = o.ep.seed;
+      seed.push_back(0);
+      g_fail_new_min = (size_t)o.T * sizeof(iobuffer); // exactly the chunk-buffer array (by far the largest allocation in production)
+      try {
+        Settings st((char)o.ep.cmode, (char)o.ep.hmode, true);
+        runcrypt runner(fi, fo, key, st, (u8_t)o.T);
+        x.ret = runner.execute_encrypt(o.P.size(), seed.data());
+      } catch (const std::bad_alloc &) {
+        x.ret = false;
+        r.ret = -3;
+      }
+      g_fail_new_min = 0;
+      if (!in.closed) fclose(fi);
+      if (!out.closed) fclose(fo);
+      x.out = out.data;
+      if (r.ret == -3) { x.out.clear(); }
+    } else if (o.kind == 0 || o.kind == 13) {
       ops::EncParams ep = o.ep;
       ep.echo = o.echo;
       x = ops::encrypt(o.P, ep);
     } else if (o.kind == 2 || o.kind == 4) x = ops::verify(o.F, o.key, o.T);
     else x = ops::decrypt(o.F, o.key, o.T);
-    r.ret = x.ret;
+    if (r.ret != -3) r.ret = x.ret;
     out = x.out;
   } else {
     // what main() does, minus exit codes
@@ -279,6 +321,7 @@ void run_C15(Ctx &cx) {
       if (run_in_child(single, 0, 1, one, 8000, how)) {
         kept.push_back(seq[i]);
         fresh.push_back(one[0]);
+        if (one[0].ret == -3) cx.rep.count("alloc_failures_injected_and_caught");
       } else {
         cx.rep.count("ops_excluded_abnormal_alone"); // belongs to C11/C04, not to history dependence
         cx.rep.count(std::string("excluded_") + KN[seq[i].kind]);
